@@ -764,6 +764,29 @@ func c19BodyCBDef(c *run.Ctx) {
 	} {
 		kC19CB.Do(c, c19CBCase{Regs: h.regs, Prog: h.prog, Input: run.TV{V: h.in}, PathCtx: strings.Contains(h.prog, c19Open)})
 	}
+	// every path-tracking context x every argument shape (constants, accesses, generators, variables, bare calls of
+	// parameterless jq functions and of builtins used before) x arity 1..3 x a behaviour that returns an argument / its input
+	for _, cx := range c19Ctxs {
+		if !cx.Path {
+			continue
+		}
+		for ai, arg := range append(append([]string{}, c19ArgExprs...), c19ArgConsts...) {
+			for bi, beh := range []string{"first", "self", "last", "all"} {
+				if c.Quick() && (ai+bi)%2 == 1 {
+					continue
+				}
+				n := 1 + (ai+bi)%3
+				regs := []c19Reg{{Name: "f", Min: 0, Max: 3, Iter: false, Beh: beh}}
+				args := make([]string, n)
+				for i := range args {
+					args[i] = c19Open + []string{arg, "1", ".a?"}[(i+bi)%3] + c19Close
+				}
+				args[bi%n] = c19Open + arg + c19Close
+				call := "f(" + strings.Join(args, "; ") + ")"
+				kC19CB.Do(c, c19CBCase{Regs: regs, Prog: c19Prefix + strings.ReplaceAll(cx.T, "%C", call), Input: run.TV{V: inputs[(ai*7+bi)%len(inputs)]}, PathCtx: true})
+			}
+		}
+	}
 	for i := 0; i < c.N(24000, 490000); i++ {
 		kC19CB.Do(c, c19GenCB(r, inputs))
 	}
